@@ -497,6 +497,11 @@ impl<'a> Searcher<'a> {
                     });
                 }
 
+                // LIMIT counts the group rows, after they have been ordered
+                if self.query.limit > 0 {
+                    results.truncate(self.query.limit as usize);
+                }
+
                 let mut first = true;
                 results.iter().for_each(|items| {
                     let mut buf = WritableBuffer::new();
